@@ -470,6 +470,7 @@ func runScene(res *core.Result, r *rand.Rand, exhaustiveBits bool) {
 	var history [][]byte // authentic frames delivered so far (for late replays)
 	var historyVia []int
 	var historyKind []string
+	var historyFrom []int
 	for round := 0; round < 2; round++ {
 		for _, k := range kinds() {
 			for _, from := range []int{1, 4} { // a direct peer and a router two hops away
@@ -584,8 +585,27 @@ func runScene(res *core.Result, r *rand.Rand, exhaustiveBits bool) {
 						history = append(history, P)
 						historyVia = append(historyVia, via)
 						historyKind = append(historyKind, k.name)
+						historyFrom = append(historyFrom, from)
 					}
 					settle()
+					// 4b. an authentic ping that changed something about its source (keys dropped or replaced, marked
+					// offline, routes removed) must not make the victim forget what it already accepted from that source:
+					// earlier frames of the same source are replayed right after it, before anything newer arrives
+					if len(d) > 0 && k.name != "disconnect-as-hop-ping" {
+						var earlier []int
+						for j := 0; j < len(history)-1; j++ {
+							if historyFrom[j] == from {
+								earlier = append(earlier, j)
+							}
+						}
+						r.Shuffle(len(earlier), func(a, b int) { earlier[a], earlier[b] = earlier[b], earlier[a] })
+						for _, j := range earlier[:min(len(earlier), 4)] {
+							if !check("replay-right-after-authentic-"+k.name, "whole-frame of an earlier "+historyKind[j], history[j], historyVia[j]) {
+								return
+							}
+							res.Count("replays_right_after_state_changing_ping", 1)
+						}
+					}
 					// 5. replays
 					if k.name != "disconnect-as-hop-ping" {
 						if !check("replay-immediate", "whole-frame", P, via) {
